@@ -387,8 +387,12 @@ class G:
         elif kind == "subroutine":
             self.emit(depth, "subroutine %s(%s)" % (name, r.choice(["", "p1", "p1, p2"])), feat="subroutine", opens=True)
         elif kind == "function":
-            self.emit(depth, r.choice(["function %s(p1)", "real function %s(p1)", "function %s(p1) result(res)"]) % name,
-                      feat="function", opens=True)
+            form = r.choice(["function %s(p1)", "real function %s(p1)", "function %s(p1) result(res)",
+                             "integer function %s(p1) result(res)", "double precision function %s(p1) result(res)",
+                             "recursive function %s(p1) result(res)"])
+            self.emit(depth, form % name, feat="function", opens=True)
+            if "result" in form and r.random() < 0.6 and not form.startswith(("integer", "double")):
+                self.emit(depth + 1, r.choice(["real :: res", "real res", "integer :: res"]), feat="function_result")
         self.decls(depth + 1)
         self.block(depth + 1, 3)
         if r.random() < 0.3:
